@@ -74,6 +74,12 @@ fn run_case(seed: u64, iter: u64) -> Result<(usize, usize), String> {
     if got.len() != n {
         return Err(format!("wrote {} instructions, read back {}", n, got.len()));
     }
+    // the same code through the visitor interface (what the compilers consume): read() -> dispatch_instruction -> callbacks
+    let mut rec = Rec::default();
+    read(code, &mut rec);
+    if rec.log.len() != n || rec.offs.len() != n {
+        return Err(format!("wrote {} instructions, the visitor saw {} callbacks / {} offsets", n, rec.log.len(), rec.offs.len()));
+    }
     let start_of = |idx: usize| -> usize { if idx < n { got[idx].0 } else { code.len() } };
     let label_idx = |l: &Label| -> usize { bound_at.iter().find(|(x, _)| x == l).map(|(_, i)| *i).unwrap() };
     for idx in 0..n {
@@ -95,6 +101,10 @@ fn run_case(seed: u64, iter: u64) -> Result<(usize, usize), String> {
         };
         if name != ename || vals != evals {
             return Err(format!("instruction #{} written as {} {:?} reads back as {} {:?}", idx, ename, evals, name, vals));
+        }
+        if rec.log[idx].0 != ename || rec.log[idx].1 != evals || rec.offs[idx] as usize != got[idx].0 {
+            return Err(format!("instruction #{} written as {} {:?} reaches the visitor as {} {:?} at offset {} (reader: offset {})",
+                               idx, ename, evals, rec.log[idx].0, rec.log[idx].1, rec.offs[idx], got[idx].0));
         }
         let opb: u8 = got[idx].1.into();
         if BytecodeOpcode::try_from(opb).ok().map(|o| { let b: u8 = o.into(); b }) != Some(opb) {
